@@ -399,6 +399,64 @@ theorem facadeRead_err {x : FVal} {e : Err} (hy : facadeRead x = .error e) : e =
     rintro ⟨q, rfl, h0, h1⟩
     exact hr (by rw [facadeReadLo_eq, facadeReadHi_eq]; exact (inRangeF_fin _ _ _).mpr ⟨h0, h1⟩)
 
+/-! ### exact-arithmetic closed forms, system invariants -/
+
+theorem p2d_id {p : Rat} (hp : p ≠ 0) (h0 : 0 ≤ p) (h1 : p ≤ 100) :
+    pctToDbfs id p = .ok (p * 30 / 100 + -30) := by
+  rw [pctToDbfs_of_ne roundingLaws_id hp, if_pos ⟨h0, h1⟩, mapArith_id]
+  norm_num
+
+theorem d2p_id {d : Rat} (h0 : -30 ≤ d) (h1 : d ≤ 0) :
+    dbfsToPct id d = .ok ((d + 30) * 100 / 30) := by
+  rw [dbfsToPct_of_ge roundingLaws_id h0, if_pos h1, mapArith_id]
+  norm_num
+
+/-- the stored dBFS level, if any, is one AirPlay accepts -/
+def RaopInv (s : Raop) : Prop := ∀ d, s.ctx = some d → GoodDbfs d
+
+theorem raopInv_init : RaopInv Raop.init := by intro d hd; cases hd
+
+theorem raop_volume_good (h : RoundingLaws rnd) {s : Raop} (hs : RaopInv s) :
+    ∃ v, Raop.volume rnd s = .ok v ∧ InPct v := by
+  unfold Raop.volume
+  cases hc : s.ctx with
+  | none => exact ⟨_, rfl, raopInitialVolume, rfl, by norm_num [raopInitial_eq], by norm_num [raopInitial_eq]⟩
+  | some d => exact dbfsToPctF_good h (hs d hc)
+
+theorem raop_setVolume_spec (h : RoundingLaws rnd) (s : Raop) {l : FVal} (hl : InPct l) :
+    ∃ d p, GoodDbfs d ∧ InPct p ∧ Raop.setVolume rnd s l = (⟨some d⟩, [.recv l, .wire d, .disp p]) := by
+  obtain ⟨d, hd, hg⟩ := pctToDbfsF_ok h hl
+  obtain ⟨p, hp, hpr⟩ := dbfsToPctF_good h hg
+  refine ⟨d, p, hg, hpr, ?_⟩
+  unfold Raop.setVolume
+  rw [hd]
+  simp only [Raop.volume, hp]
+
+theorem raop_after_set (h : RoundingLaws rnd) (s : Raop) {l : FVal} (hl : InPct l) :
+    RaopInv (Raop.setVolume rnd s l).1 ∧ ∀ ev ∈ (Raop.setVolume rnd s l).2, GoodEv GoodDbfs ev := by
+  obtain ⟨d, p, hg, hp, he⟩ := raop_setVolume_spec h s hl
+  rw [he]
+  refine ⟨?_, ?_⟩
+  · intro d' hd'; cases hd'; exact hg
+  · intro ev hev
+    simp only [List.mem_cons, List.not_mem_nil, or_false] at hev
+    rcases hev with rfl | rfl | rfl
+    · exact hl
+    · exact hg
+    · exact hp
+
+theorem mrp_setVolume_good (h : RoundingLaws rnd) {l : FVal} (hl : InPct l) :
+    ∀ ev ∈ Mrp.setVolume rnd l, GoodEv InUnit ev := by
+  intro ev hev
+  simp only [Mrp.setVolume, List.mem_cons, List.not_mem_nil, or_false] at hev
+  rcases hev with rfl | rfl
+  · exact hl
+  · obtain ⟨q, rfl, h0, h1⟩ := hl
+    refine ⟨rnd (q / 100), rfl, ?_⟩
+    apply h.between h.fix0 h.fix1
+    · positivity
+    · rw [div_le_iff₀ (by norm_num)]; linarith
+
 end
 
 end PyatvModel.C20
